@@ -2,13 +2,18 @@
 
    MODEL (run) mirrors, as it is:
      ford/sourceform.py  FortranBase._set_display (inheritance at construction, `none`, the source-file
-                         special case, unknown words ignored), _should_display / filter_display,
-                         FortranCodeUnit.prune, FortranType.prune, FortranBlockData.prune, the `visible`
-                         flags set at construction and in prune;
-     ford/fortran_project.py  Project.correlate: prune of every unit, gathering of the page lists.
+                         special case — `none` ignored, the file's words handed down to its contents after
+                         they were built —, unknown words ignored), _should_display (the comment of the
+                         procedure inside an interface block counts), _should_display_unscoped (common
+                         blocks, final procedures), filter_display, FortranCodeUnit.prune (enums with their
+                         enumerators, common blocks, namelists included), FortranType.prune (final procedures
+                         included), FortranBlockData.prune, the `visible` flags set in prune;
+     ford/fortran_project.py  Project.correlate: prune of every unit, gathering of the page lists, namelists
+                         kept when still displayed.
    The input is the entity tree as it stands after correlate() and before prune(): every node carries its
-   permission, whether its doc_list is non-empty, the `display` words and the `proc_internals` value of its
-   own metadata; children are tagged with the name of the list they sit in.
+   permission (a_perm: what FORD computed, property C04) next to the accessibility Fortran defines (a_acc),
+   whether its doc_list is non-empty, the `display` words and the `proc_internals` value of its own metadata;
+   children are tagged with the name of the list they sit in.
    The output gives, for EVERY node of the input (also the removed ones — other objects keep references to
    them, and `__str__` / graph nodes consult their `visible` flag): (id, kept, visible).
 
@@ -59,15 +64,16 @@ Definition in_lists (l : lname) (ls : list lname) : bool := existsb (lname_eqb l
 
 (* what kind of object a node is, as far as prune() is concerned:
    NProc = function / subroutine / module-procedure implementation (obj == "proc");
-   NOther = anything without a prune method that matters (variables, interfaces, enums, ...) *)
-Inductive nkind := NFile | NModule | NSubmodule | NProgram | NProc | NType | NBlockData | NOther.
+   NEnum = an enum (its enumerators are filtered), NCommon = a common block (its variables belong to it),
+   NOther = anything else (variables, interfaces, bound procedures, namelists, dummy arguments, ...) *)
+Inductive nkind := NFile | NModule | NSubmodule | NProgram | NProc | NType | NBlockData | NEnum | NCommon | NOther.
 
 Record attrs := mk_attrs {
   a_id : nat;
-  a_perm : perm;                 (* entity.permission *)
-  a_doc : bool;                  (* doc_list non-empty (what _should_display tests) *)
-  a_doc2 : bool;                 (* documented elsewhere: the comment of the procedure inside a nameless /
-                                    abstract interface block, which FORD does not look at *)
+  a_perm : perm;                 (* entity.permission, as FORD computed it *)
+  a_acc : perm;                  (* the accessibility Fortran defines for the entity (Spec of C04) *)
+  a_doc : bool;                  (* doc_list non-empty *)
+  a_doc2 : bool;                 (* the procedure inside a nameless / abstract interface block has a comment *)
   a_display : list word;         (* `display:` words of the entity's own metadata *)
   a_internals : option bool      (* `proc_internals:` of the entity's own metadata *)
 }.
@@ -99,9 +105,18 @@ Definition disp_of (is_file : bool) (pd : list word) (meta : list word) : list w
          else if existsb is_known tmp then tmp else pd
   end.
 
-(* _should_display *)
+(* _should_display: an interface block may be documented at the procedure it holds *)
 Definition should_display (c : cfg) (d : list word) (a : attrs) : bool :=
-  if c_hide_undoc c && negb (a_doc a) then false else has_word (word_of_perm (a_perm a)) d.
+  if c_hide_undoc c && negb (a_doc a || a_doc2 a) then false else has_word (word_of_perm (a_perm a)) d.
+
+(* _should_display_unscoped: common blocks and final procedures have no accessibility *)
+Definition should_display_unscoped (c : cfg) (d : list word) (a : attrs) : bool :=
+  if c_hide_undoc c && negb (a_doc a) then false else existsb is_known d.
+
+Definition unscoped (l : lname) : bool := in_lists l [LCommon; LFinalProcs].
+
+Definition shown (c : cfg) (d : list word) (l : lname) (a : attrs) : bool :=
+  if unscoped l then should_display_unscoped c d a else should_display c d a.
 
 (* meta.proc_internals: project value unless the metadata gives one *)
 Definition internals (c : cfg) (a : attrs) : bool :=
@@ -111,18 +126,19 @@ Definition internals (c : cfg) (a : attrs) : bool :=
 Definition init_visible (c : cfg) (l : lname) : bool :=
   match l with
   | LModules | LSubmodules | LPrograms | LProcs | LBlockData => true   (* set in _initialize / _fortran_file *)
-  | LNamelists | LCommon => true
   | _ => false
   end.
 
-(* lists replaced by filter_display in the node's prune() *)
+(* lists replaced by filter_display (or the unscoped filter) in the node's prune() *)
 Definition filtered (k : nkind) : list lname :=
   match k with
-  | NModule | NProgram | NProc => [LFunctions; LSubroutines; LTypes; LInterfaces; LAbsInterfaces; LVariables]
-  | NSubmodule => [LFunctions; LSubroutines; LTypes; LInterfaces; LAbsInterfaces; LVariables;
-                   LModProcedures; LModSubroutines; LModFunctions]
-  | NType => [LBoundProcs; LVariables]
-  | NBlockData => [LTypes; LVariables]
+  | NModule | NProgram | NProc =>
+      [LFunctions; LSubroutines; LTypes; LInterfaces; LAbsInterfaces; LVariables; LEnums; LCommon; LNamelists]
+  | NSubmodule => [LFunctions; LSubroutines; LTypes; LInterfaces; LAbsInterfaces; LVariables; LEnums; LCommon;
+                   LNamelists; LModProcedures; LModSubroutines; LModFunctions]
+  | NType => [LBoundProcs; LVariables; LFinalProcs]
+  | NBlockData => [LTypes; LVariables; LCommon]
+  | NEnum => [LVariables]
   | _ => []
   end.
 
@@ -130,23 +146,25 @@ Definition filtered (k : nkind) : list lname :=
 Definition made_visible (k : nkind) : list lname :=
   match k with
   | NModule | NSubmodule | NProgram | NProc =>
-      [LAbsInterfaces; LInterfaces; LFunctions; LSubroutines; LTypes; LModProcedures; LModFunctions; LModSubroutines]
+      [LAbsInterfaces; LInterfaces; LCommon; LNamelists; LFunctions; LSubroutines; LTypes;
+       LModProcedures; LModFunctions; LModSubroutines]
   | NType => [LBoundProcs; LVariables]
-  | NBlockData => [LTypes]
+  | NBlockData => [LTypes; LCommon]
   | _ => []
   end.
 
-(* lists whose (remaining) members are pruned in turn *)
+(* lists whose (remaining) members are pruned in turn (for enums: their enumerators are filtered) *)
 Definition recursed (k : nkind) : list lname :=
   match k with
   | NModule | NSubmodule | NProgram | NProc =>
-      [LFunctions; LSubroutines; LTypes; LModProcedures; LModFunctions; LModSubroutines]
+      [LFunctions; LSubroutines; LTypes; LEnums; LModProcedures; LModFunctions; LModSubroutines]
   | NBlockData => [LTypes]
   | _ => []
   end.
 
-(* lists emptied when a procedure hides its internals *)
-Definition cleared : list lname := [LFunctions; LSubroutines; LTypes; LInterfaces; LAbsInterfaces; LVariables].
+(* lists emptied when a procedure hides its internals; its namelists are filtered all the same *)
+Definition cleared : list lname :=
+  [LFunctions; LSubroutines; LTypes; LInterfaces; LAbsInterfaces; LVariables; LEnums; LCommon].
 
 Definition out := (nat * bool * bool)%type.     (* id, kept, visible *)
 
@@ -174,9 +192,16 @@ Fixpoint pruned (c : cfg) (pd : list word) (vis : bool) (n : node) : list out :=
             | [] => []
             | (l, ch) :: r =>
                 (if hide then
-                   (* early return: six lists emptied, nothing else looked at *)
-                   untouched c (negb (in_lists l cleared)) l ch
-                 else if in_lists l (filtered k) && negb (should_display c d (node_attrs ch)) then
+                   (* early return: eight lists emptied, namelists filtered, nothing else looked at *)
+                   if lname_eqb l LNamelists then
+                     if should_display c d (node_attrs ch)
+                     then match untouched c true l ch with
+                          | (i, kp, _) :: rest => (i, kp, true) :: rest
+                          | [] => []
+                          end
+                     else untouched c false l ch
+                   else untouched c (negb (in_lists l cleared)) l ch
+                 else if in_lists l (filtered k) && negb (shown c d l (node_attrs ch)) then
                    untouched c false l ch
                  else
                    let v := init_visible c l || in_lists l (made_visible k) in
@@ -190,12 +215,15 @@ Fixpoint pruned (c : cfg) (pd : list word) (vis : bool) (n : node) : list out :=
   end.
 
 (* Project.correlate: every module, submodule, top-level procedure, program and block data unit is pruned;
-   the file object itself is not *)
+   the file object itself is not.  The file's own `display` words (none ignored) are what its units inherit. *)
+Definition file_display (c : cfg) (t : node) : list word :=
+  disp_of true (c_display c) (a_display (node_attrs t)).
+
 Definition run (c : cfg) (t : node) : list out :=
   match t with
   | Node k a cs =>
       (a_id a, true, c_incl_src c)
-      :: flat_map (fun lc => pruned c (c_display c) (init_visible c (fst lc)) (snd lc)) cs
+      :: flat_map (fun lc => pruned c (file_display c t) (init_visible c (fst lc)) (snd lc)) cs
   end.
 
 Definition kept_ids (c : cfg) (t : node) : list nat :=
@@ -206,49 +234,44 @@ Definition visible_ids (c : cfg) (t : node) : list nat :=
 (* the entities that get a page of their own: project.modules/submodules/programs/blockdata/procedures
    (top-level ones, then functions, subroutines, interfaces of every unit), absinterfaces, types,
    submodprocedures — gathered after prune; project.namelists — gathered at parse time from the units'
-   routines, never filtered *)
+   routines (and from programs and top-level procedures themselves), kept when prune made them visible *)
 Definition page_lists : list lname :=
   [LFunctions; LSubroutines; LInterfaces; LAbsInterfaces; LTypes; LModFunctions; LModSubroutines; LModProcedures].
 
 Definition is_routine_list (l : lname) : bool :=
   in_lists l [LFunctions; LSubroutines; LModProcedures; LModFunctions; LModSubroutines].
 
-Definition unit_pages (c : cfg) (u : node) : list nat :=
+(* namelists of a pruned procedure / program (display d below it) that stay *)
+Definition namelist_pages (c : cfg) (d : list word) (n : node) : list nat :=
+  flat_map (fun lc => if lname_eqb (fst lc) LNamelists && should_display c d (node_attrs (snd lc))
+                      then [a_id (node_attrs (snd lc))] else [])
+           (node_children n).
+
+Definition unit_pages (c : cfg) (pd : list word) (u : node) : list nat :=
   match u with
   | Node k a cs =>
-      let d := disp_of false (c_display c) (a_display a) in
+      let d := disp_of false pd (a_display a) in
       let hide := match k with NProc => negb (internals c a) | _ => false end in
       a_id a
-      :: flat_map (fun lc =>
+      :: (match k with NProgram | NProc => namelist_pages c d u | _ => [] end)
+      ++ flat_map (fun lc =>
            let l := fst lc in let ch := snd lc in
-           (* pages of the unit's own lists (not for a top-level procedure: only code units are gathered) *)
-           (match k with
-            | NModule | NSubmodule | NProgram | NBlockData =>
-                if in_lists l page_lists
-                   && negb (in_lists l (filtered k) && negb (should_display c d (node_attrs ch)))
-                then [a_id (node_attrs ch)] else []
-            | _ => []
-            end)
-           ++
-           (* namelists: of the unit itself when it is a program or a top-level procedure, and of the
-              routines of a module, submodule or program — collected before anything is pruned *)
-           (match k with
-            | NProgram | NProc => if lname_eqb l LNamelists then [a_id (node_attrs ch)] else []
-            | _ => []
-            end)
-           ++
-           (match k with
-            | NModule | NSubmodule | NProgram =>
-                if is_routine_list l
-                then flat_map (fun lc' => if lname_eqb (fst lc') LNamelists then [a_id (node_attrs (snd lc'))] else [])
-                              (node_children ch)
-                else []
-            | _ => []
-            end)) cs
+           match k with
+           | NModule | NSubmodule | NProgram | NBlockData =>
+               if negb (in_lists l (filtered k) && negb (shown c d l (node_attrs ch))) then
+                 (if in_lists l page_lists then [a_id (node_attrs ch)] else [])
+                 ++ (match k with
+                     | NBlockData => []
+                     | _ => if is_routine_list l
+                            then namelist_pages c (disp_of false d (a_display (node_attrs ch))) ch else []
+                     end)
+               else []
+           | _ => []
+           end) cs
   end.
 
 Definition pages (c : cfg) (t : node) : list nat :=
-  flat_map (fun lc => unit_pages c (snd lc)) (node_children t).
+  flat_map (fun lc => unit_pages c (file_display c t) (snd lc)) (node_children t).
 
 (* ------------------------------------------------------------------ SPEC *)
 
@@ -287,9 +310,13 @@ Definition dset_nonempty (d : dset) : bool := d_pub d || d_priv d || d_prot d.
 Definition child_selected (c : cfg) (k : nkind) (a : attrs) (d : dset) (l : lname) (ch : attrs) : bool :=
   if is_unit_list l then true                     (* program units and top-level procedures: always *)
   else if lname_eqb l LArgs then true             (* dummy arguments are part of their procedure *)
-  else (if perm_free l then dset_nonempty d else dset_has d (a_perm ch))
-       && (negb (c_hide_undoc c) || documented ch)
-       && spec_internals c k a.
+  else match k with
+       | NCommon => true                          (* the variables of a common block are part of it *)
+       | _ =>
+         (if perm_free l then dset_nonempty d else dset_has d (a_acc ch))
+         && (negb (c_hide_undoc c) || documented ch)
+         && (lname_eqb l LNamelists || spec_internals c k a)   (* namelists have pages of their own *)
+       end.
 
 (* ids of the selected entities below (and including) a selected node; [inh] = display inherited by it *)
 Fixpoint sel (c : cfg) (inh : dset) (n : node) : list nat :=
@@ -307,18 +334,34 @@ Fixpoint sel (c : cfg) (inh : dset) (n : node) : list nat :=
 
 Definition selected (c : cfg) (t : node) : list nat := sel c (dset_of (c_display c)) t.
 
-(* kinds that have a page of their own, by position: a unit, or a procedure / interface / type directly
-   inside a module, submodule, program or block data unit *)
+(* kinds that have a page of their own, by position: a unit; a procedure / interface / type directly inside
+   a module, submodule, program or block data unit; a namelist of a program, of a top-level procedure or of
+   a procedure directly inside a module, submodule or program *)
+Definition spec_namelists (c : cfg) (k : nkind) (a : attrs) (d : dset) (n : node) : list nat :=
+  flat_map (fun lc => if lname_eqb (fst lc) LNamelists && child_selected c k a d LNamelists (node_attrs (snd lc))
+                      then [a_id (node_attrs (snd lc))] else [])
+           (node_children n).
+
 Definition spec_pages_unit (c : cfg) (inh : dset) (u : node) : list nat :=
   match u with
   | Node k a cs =>
       let d := spec_display false inh (a_display a) in
       a_id a
-      :: flat_map (fun lc =>
+      :: (match k with NProgram | NProc => spec_namelists c k a d u | _ => [] end)
+      ++ flat_map (fun lc =>
+           let ch := snd lc in
            match k with
            | NModule | NSubmodule | NProgram | NBlockData =>
-               if in_lists (fst lc) page_lists && child_selected c k a d (fst lc) (node_attrs (snd lc))
-               then [a_id (node_attrs (snd lc))] else []
+               if child_selected c k a d (fst lc) (node_attrs ch) then
+                 (if in_lists (fst lc) page_lists then [a_id (node_attrs ch)] else [])
+                 ++ (match k with
+                     | NBlockData => []
+                     | _ => if is_routine_list (fst lc)
+                            then spec_namelists c (node_kind ch) (node_attrs ch)
+                                   (spec_display false d (a_display (node_attrs ch))) ch
+                            else []
+                     end)
+               else []
            | _ => []
            end) cs
   end.
@@ -329,24 +372,14 @@ Definition spec_pages (c : cfg) (t : node) : list nat :=
       flat_map (fun lc => spec_pages_unit c d (snd lc)) cs
   end.
 
-(* ------------------------------------------------------------------ regularity and regions *)
+(* ------------------------------------------------------------------ well-formed trees *)
 
-(* lists FORD never filters although the Spec's rule applies to them *)
-Definition region_of_list (l : lname) : nat :=
-  match l with
-  | LEnums => 1
-  | LCommon => 2
-  | LNamelists => 4
-  | LFinalProcs => 8
-  | _ => 0
-  end.
-
-(* a regular tree: below a file only units; below a unit / procedure / type only lists that its prune()
-   filters, plus dummy arguments; below anything else only dummy arguments; no second documentation place *)
+(* the lists FORD's objects of each kind have *)
 Definition allowed_child (k : nkind) (l : lname) : bool :=
   match k with
   | NFile => is_unit_list l
   | NOther => lname_eqb l LArgs
+  | NCommon => lname_eqb l LVariables
   | _ => in_lists l (filtered k) || lname_eqb l LArgs
   end.
 
@@ -355,8 +388,9 @@ Definition kind_fits (l : lname) (k : nkind) : bool :=
   match l, k with
   | LModules, NModule | LSubmodules, NSubmodule | LPrograms, NProgram | LProcs, NProc
   | LBlockData, NBlockData | LFunctions, NProc | LSubroutines, NProc | LTypes, NType
-  | LModProcedures, NProc | LModFunctions, NProc | LModSubroutines, NProc => true
-  | LInterfaces, NOther | LAbsInterfaces, NOther | LVariables, NOther | LEnums, NOther | LCommon, NOther
+  | LModProcedures, NProc | LModFunctions, NProc | LModSubroutines, NProc
+  | LEnums, NEnum | LCommon, NCommon => true
+  | LInterfaces, NOther | LAbsInterfaces, NOther | LVariables, NOther
   | LNamelists, NOther | LBoundProcs, NOther | LFinalProcs, NOther | LArgs, NOther => true
   | _, _ => false
   end.
@@ -371,20 +405,22 @@ Fixpoint well_kinded (n : node) : bool :=
          end) cs
   end.
 
+(* only an interface block can be documented at a second place *)
+Definition doc2_ok (l : lname) (a : attrs) : bool :=
+  negb (a_doc2 a) || in_lists l [LInterfaces; LAbsInterfaces].
+
+(* a regular tree: every node sits in a list its parent's kind has, and FORD's permission of every entity
+   is the accessibility Fortran defines (property C04) *)
 Fixpoint regular (n : node) : bool :=
   match n with
   | Node k a cs =>
-      negb (a_doc2 a)
+      perm_eqb (a_perm a) (a_acc a)
       && (fix go (cs : list (lname * node)) : bool :=
             match cs with
             | [] => true
-            | (l, ch) :: r => allowed_child k l && regular ch && go r
+            | (l, ch) :: r => allowed_child k l && doc2_ok l (node_attrs ch) && regular ch && go r
             end) cs
   end.
-
-(* the file's own metadata gives no display words (FORD does not hand them down) *)
-Definition file_display_silent (t : node) : bool :=
-  negb (existsb is_known (filter (fun w => negb (word_eqb w WNone)) (a_display (node_attrs t)))).
 
 Definition is_file (t : node) : bool := match node_kind t with NFile => true | _ => false end.
 
@@ -392,22 +428,18 @@ Definition is_file (t : node) : bool := match node_kind t with NFile => true | _
 Definition cfg_ok (c : cfg) : bool :=
   negb (has_word WNone (c_display c)) || forallb (word_eqb WNone) (c_display c).
 
-(* region mask of an entity, from the path leading to it: bits 1,2,4,8 = below an enum / common block /
-   namelist / final-procedure list (never filtered); 16 = the file carries display words; 32 = an entity on
-   the path is documented only at the second place and hide_undoc is on *)
+(* no recorded finding is left; the judge marks entities below a list their parent's kind does not have
+   (bit 64: the generator produced a tree FORD cannot) *)
 Fixpoint regions_below (c : cfg) (acc : nat) (n : node) : list (nat * nat) :=
   match n with
   | Node k a cs =>
-      let acc' := Nat.lor acc (if c_hide_undoc c && a_doc2 a && negb (a_doc a) then 32 else 0) in
-      (a_id a, acc')
+      (a_id a, acc)
       :: (fix go (cs : list (lname * node)) : list (nat * nat) :=
             match cs with
             | [] => []
             | (l, ch) :: r =>
-                regions_below c (Nat.lor acc' (Nat.lor (region_of_list l)
-                                   (if allowed_child k l then 0 else 64))) ch ++ go r
+                regions_below c (Nat.lor acc (if allowed_child k l then 0 else 64)) ch ++ go r
             end) cs
   end.
 
-Definition regions (c : cfg) (t : node) : list (nat * nat) :=
-  regions_below c (if file_display_silent t then 0 else 16) t.
+Definition regions (c : cfg) (t : node) : list (nat * nat) := regions_below c 0 t.
